@@ -8,7 +8,7 @@
 (*  as documented: identical for lossless configurations (after folding    *)
 (*  the units below the fractional unit into one total), otherwise closer  *)
 (*  than one unit of the last printed digit.                               *)
-EXTENDS CivilOps, Rfc3339, TLC, Json, IOUtils
+EXTENDS Friendly, CivilOps, Rfc3339, TLC, Json, IOUtils
 
 Rec == ndJsonDeserialize(IOEnv.TRACE)
 VARIABLE l
@@ -114,9 +114,37 @@ Lossless(cfg) == FracRank(cfg) = -1 \/ (cfg.prec = -1 /\ FracRank(cfg) <= 3)
 \* |a - b| < unit / 10^digits   <=>   |a - b| * 10^digits < unit
 Closer(a, b, unitNs, digits) == BLt(BMul(BAbs(BSub(a, b)), BOf(Pow10(digits))), unitNs)
 
+\* ---- what the printed text itself denotes (independent reader, Friendly.tla) --------------------
+FrSign(p, b) == IF p.neg THEN BNeg(b) ELSE b
+\* time units (hours and below) of the text as nanoseconds times 10^fnd (the fraction made whole)
+FrTimeScaled(p) ==
+  LET whole == BAdd(BMul(p.u[6], B3600E9), BAdd(BMul(p.u[5], B60E9), BAdd(BMulE9(p.u[4]),
+               BAdd(BMul(p.u[3], B1E6), BAdd(BMul(p.u[2], B1E3), p.u[1])))))
+      fr == IF p.frank < 0 THEN BZero ELSE BMul(BOf(p.fnum), UnitNsOfRank(p.frank))
+  IN BAdd(BMul(whole, BOf(Pow10(p.fnd))), fr)
+\* o: a span record; T: its hours-and-below total in nanoseconds.  The text must denote the calendar
+\* units exactly, every time unit above the fractional one exactly (unless a clock is printed), and the
+\* rest as a total: exactly when the configuration is lossless, else truncated toward zero by less
+\* than one unit of the last printed digit
+FrTextWhy(p, cal, T, cfg, timeExact) ==
+  LET R == FracRank(cfg)  scale == BOf(Pow10(p.fnd))  txt == FrSign(p, FrTimeScaled(p))  orig == BMul(T, scale) IN
+  IF ~p.ok THEN "printed friendly text is not in the documented grammar"
+  ELSE IF \E k \in 7..10 : FrSign(p, p.u[k]) # cal[k - 6] THEN "friendly text: a calendar unit differs from the value"
+  ELSE IF p.frank >= 0 /\ p.frank # R THEN "friendly text: the fraction sits on the wrong unit"
+  ELSE IF timeExact # <<>> /\ (\E k \in 1..6 : FrSign(p, p.u[k]) # timeExact[k]) THEN "friendly text: a time unit differs from the value"
+  ELSE IF Lossless(cfg) THEN (IF txt = orig THEN "" ELSE "friendly text does not denote the value")
+  ELSE IF BLt(BAbs(orig), BAbs(txt)) THEN "friendly text (limited precision) is larger in magnitude than the value"
+  ELSE IF ~BLt(BAbs(BSub(orig, txt)), UnitNsOfRank(R)) THEN "friendly text (limited precision) is off by one unit of the last digit or more"
+  ELSE ""
+
 FrSpanWhy(r) ==
-  LET o == r.o  cfg == r.cfg  R == FracRank(cfg) IN
-  IF r.st = "panic" THEN "panic printing or parsing a friendly span"
+  LET o == r.o  cfg == r.cfg  R == FracRank(cfg)
+      tw == IF r.st = "panic" THEN ""
+            ELSE FrTextWhy(RdFriendly(r.text), <<BOf(o.d), BOf(o.w), BOf(o.mo), BOf(o.y)>>, LowNs(o, 5), cfg,
+                           IF R = -1 /\ cfg.hms = 0 THEN <<o.ns, o.us, o.ms, o.s, o.mi, BOf(o.h)>> ELSE <<>>)
+  IN
+  IF tw # "" THEN tw
+  ELSE IF r.st = "panic" THEN "panic printing or parsing a friendly span"
   ELSE IF r.st # "ok" THEN "the friendly parser refuses the friendly printer's output"
   ELSE IF R = -1 THEN (IF r.p = o THEN "" ELSE "friendly round trip is not unit for unit")
   ELSE IF ~HighSame(r.p, o, R) THEN "friendly round trip changed a unit above the fractional unit"
@@ -125,8 +153,11 @@ FrSpanWhy(r) ==
   ELSE "lossy friendly output is off by more than one unit of the last printed digit"
 
 FrSdWhy(r) ==
-  LET N == BNanosOfApi(r.o[1], r.o[2])  cfg == r.cfg  R == FracRank(cfg) IN
-  IF r.st = "panic" THEN "panic printing or parsing a friendly duration"
+  LET N == BNanosOfApi(r.o[1], r.o[2])  cfg == r.cfg  R == FracRank(cfg)
+      tw == IF r.st = "panic" THEN "" ELSE FrTextWhy(RdFriendly(r.text), <<BZero, BZero, BZero, BZero>>, N, cfg, <<>>)
+  IN
+  IF tw # "" THEN tw
+  ELSE IF r.st = "panic" THEN "panic printing or parsing a friendly duration"
   ELSE IF r.st # "ok" THEN "the friendly parser refuses the friendly printer's output"
   ELSE LET P == BNanosOfApi(r.p[1], r.p[2]) IN
        IF Lossless(cfg) THEN (IF P = N THEN "" ELSE "friendly duration round trip is not the identical duration")
